@@ -14,6 +14,18 @@ directly and through another fragment, twice inside a fragment, diamond, chain);
 every folded layout is also loaded on a reused ConfigLoader right after a load of
 the same URLs that was rejected inside the shared fragment (cycle / stray section
 end).  See fold_structures(), check_folds().
+
+Spelling axis (how the reference is written): the argument of %include is $-expanded and
+THEN resolved against the includer's URL.  Every fragment reference is also written in
+every FORM (relative, ./relative, absolute path, file:/// URL, file:/ URL) x every VIA
+(literal, padded, whole / head / head with slash / name / stem / both / scheme from a
+%define, head from the environment) x name kind (plain, a '$' in the file name, the same
+file name for different resources of one layout) x define SITE (just before the include,
+at the top of the main file = flowing into the fragment, at the end of the previous
+fragment = flowing out of it, after the include = must be rejected); the oracle stays the
+inlined text (with the %define lines left where they were).  Full product on the family
+of all short texts (spell_seeds()), one spelling per layout in rotation on every other
+seed.  See vz/harness/inclspell.py, build_spelled(), check_spell_seed().
 """
 import io
 import itertools
@@ -24,6 +36,7 @@ import tempfile
 from vz import core
 from vz.gen import corpus as C
 from vz.gen import schema as M
+from vz.harness import inclspell as SP
 from vz.harness import load as H
 from vz.props.c15 import DEFINE_SCHEMA, DEFINE_TEXTS, classify
 
@@ -79,6 +92,9 @@ class Scratch:
         os.makedirs(os.path.join(self.base, "p1", "sub dir"))
         self.n = 0
         self.ns = 0          # folded structures built so far in this shard (rotates quick-tier choices)
+        self.nsp = 0         # spelled references drawn so far in this shard (rotates the spelling)
+        self.nsite = 0       # ... the define site
+        self.npp = 0         # ... the placement pair / shape of spelled pair layouts (quick tier)
 
     def write(self, d, name, lines):
         os.makedirs(d, exist_ok=True)
@@ -117,6 +133,121 @@ def build(scr, lines, cuts, places):
 
     main = emit(None, 0, len(lines), scr.maindir)
     return scr.write(scr.maindir, "main%d.conf" % scr.n, main)
+
+
+# ---------------------------------------------------------------------------
+# spelling axis: how the reference to a fragment is written (vz/harness/inclspell.py)
+
+NAMEKINDS = ("plain", "dollar")
+# every (form, via, name kind) but the one the layouts above already use
+SPELL_COMBOS = [(f, v, nk) for f in SP.FORMS for v in SP.VIAS for nk in NAMEKINDS
+                if SP.applicable(f, v) and (f, v, nk) != ("rel", "lit", "plain")]
+# layouts with several fragments: also the same file name for every fragment (in different directories)
+SPELL_COMBOS_M = SPELL_COMBOS + [(f, v, "homonym") for f in SP.FORMS for v in SP.VIAS if SP.applicable(f, v)]
+SITES = ("here", "top", "prev", "after")
+SPELL_ALPHABET = ("k a", "%define d x", "k $d", "<t>", "</t>")
+PAIR_FORMS = ("rel", "abs", "url")
+PAIR_VIAS = ("whole", "head", "name", "env")
+LATE_FORMS = ("rel", "abs")
+LATE_VIAS = ("whole", "head", "name")
+OUTER_SPELLED = (("abs", "head"), ("url", "whole"), ("dot", "name"))
+
+
+def mkspec(form, via, namekind="plain", site="here"):
+    return {"form": form, "via": via, "namekind": namekind, "site": site}
+
+
+def build_spelled(scr, lines, cuts, places, specs):
+    """Like build(), but the reference to cut idx is written as specs[idx] says
+    (None = like build(): literal relative reference, unique plain name).
+    The %define lines a spelling needs are put at its SITE: 'here' = in the includer
+    just before the %include line, 'top' = first lines of the main file, 'prev' = last
+    lines of the previous sibling fragment, 'after' = in the includer just after the
+    %include line (too late: the layout must be rejected).
+    -> (main path, inlined lines, environment): inlined lines = the main file with every
+    %include line replaced by the (inlined) lines of the file it refers to, i.e. the
+    original text with the %define lines added where they are in the layout."""
+    scr.n += 1
+    n = scr.n
+    kids = {}
+    dirs = {None: scr.maindir}
+    for idx, (i, j, par) in enumerate(cuts):
+        kids.setdefault(par, []).append(idx)
+        dirs[idx] = place_dir(dirs[par], places[idx])[0]
+    mainname = "main%d.conf" % n
+    used = {(scr.maindir, mainname)}
+    info = {}
+    env = {}
+    top = []
+    for idx, (i, j, par) in enumerate(cuts):
+        sp = specs[idx] or mkspec("rel", "lit")
+        nk = sp["namekind"]
+        if nk == "homonym":
+            name = "h%d.conf" % n
+            if (dirs[idx], name) in used:
+                name = "h%d_%d.conf" % (n, idx)
+        elif nk == "dollar":
+            name = "s$%d_%d.conf" % (n, idx)
+        else:
+            name = "s%d_%d.conf" % (n, idx)
+        used.add((dirs[idx], name))
+        S = SP.reference(sp["form"], dirs[par], dirs[idx], name)
+        defs, e, arg = SP.spell(sp["via"], S, idx)
+        # self-check with the reference models: expanded, then resolved against the includer, the
+        # argument denotes this fragment's file
+        inc = os.path.join(dirs[par], mainname if par is None else info[par][0])
+        den = SP.denotes(inc, arg, defs, e)
+        if os.path.normpath(den) != os.path.join(dirs[idx], name):
+            raise core.HarnessError("spelling %r of %r in %r denotes %r" % (sp, name, inc, den))
+        env.update(e)
+        deflines = ["%%define %s %s" % d for d in defs]
+        site = sp["site"] if deflines else "here"
+        if site == "top":
+            top += deflines
+        info[idx] = (name, deflines, arg, site)
+
+    def emit(node, lo, hi):
+        out, inl = [], []
+        pos = lo
+        ks = sorted(kids.get(node, []), key=lambda k: cuts[k][0])
+        for t, idx in enumerate(ks):
+            i, j, _ = cuts[idx]
+            out += lines[pos:i]
+            inl += lines[pos:i]
+            name, deflines, arg, site = info[idx]
+            sub, subinl = emit(idx, i, j)
+            if t + 1 < len(ks) and info[ks[t + 1]][3] == "prev":
+                sub = sub + info[ks[t + 1]][1]
+                subinl = subinl + info[ks[t + 1]][1]
+            scr.write(dirs[idx], name, sub)
+            if site == "here":
+                out += deflines
+                inl += deflines
+            elif site == "prev" and t == 0:
+                raise core.HarnessError("define site 'prev' without a previous sibling fragment")
+            out.append("  %include " + arg)
+            inl += subinl
+            if site == "after":
+                out += deflines
+                inl += deflines
+            pos = j
+        out += lines[pos:hi]
+        inl += lines[pos:hi]
+        return out, inl
+
+    main, inl = emit(None, 0, len(lines))
+    return scr.write(scr.maindir, mainname, top + main), top + inl, env
+
+
+def spell_seeds(tier):
+    """All texts of 1..N lines over SPELL_ALPHABET that are balanced as a layout."""
+    N = 3 if tier == "quick" else 4
+    out = []
+    for n in range(1, N + 1):
+        for combo in itertools.product(SPELL_ALPHABET, repeat=n):
+            if balanced(list(combo), 0, n):
+                out.append(list(combo))
+    return out
 
 
 # ---------------------------------------------------------------------------
@@ -307,9 +438,12 @@ def repeat_seeds(tier):
 LAST_REJECTION = [None]      # message of the most recent rejection (shown by replay only)
 
 
-def outcome_file(sch, path):
+def outcome_file(sch, path, env=None):
     import ZConfig
+    saved = {k: os.environ.get(k) for k in env} if env else {}
     try:
+        if env:
+            os.environ.update(env)
         cfg, _ = ZConfig.loadConfig(sch, path)
         return ("tree", H.tree(cfg))
     except ZConfig.ConfigurationError as e:
@@ -317,6 +451,12 @@ def outcome_file(sch, path):
         return ("rejected",)
     except Exception as e:
         return ("internal", core.exc_desc(e))
+    finally:
+        for k, v in saved.items():
+            if v is None:
+                os.environ.pop(k, None)
+            else:
+                os.environ[k] = v
 
 
 def outcome_text(sch, text):
@@ -326,6 +466,145 @@ def outcome_text(sch, text):
     if r[0] == "rejected":
         return ("rejected",)
     return ("internal", core.exc_desc(r[1]))
+
+
+def spec_label(sp):
+    if sp is None:
+        return "-"
+    return "%s/%s/%s/%s" % (sp["form"], sp["via"], sp["namekind"],
+                            sp["site"] if sp["via"] in SP.DEFINING_VIAS else "-")
+
+
+def run_spelled(scr, sch, lines, acc, mid, base, cuts, places, specs, kind):
+    """One layout whose references are written as `specs` say; oracle = the inlined text."""
+    text = "\n".join(lines) + "\n"
+    case = {"member": mid, "text": text, "cuts": [list(c) for c in cuts], "places": list(places),
+            "specs": [dict(sp) if sp else None for sp in specs]}
+    acc.current = case
+    path, inl, env = build_spelled(scr, lines, cuts, places, specs)
+    late = any(sp and sp["site"] == "after" and sp["via"] in SP.DEFINING_VIAS for sp in specs)
+    if late:
+        expect = ("rejected",)
+    elif inl == lines:
+        expect = base
+    else:
+        expect = outcome_text(sch, "\n".join(inl) + "\n")
+        if expect[0] == "internal":
+            acc.extra["inlined_internal_errors(C07's)"] += 1
+            return
+    got = outcome_file(sch, path, env)
+    acc.ev()
+    acc.transitions += 1
+    acc.nt()
+    acc.sample(lambda: dict(case, kind=kind))
+    acc.cls("%s:%s" % (kind, got[0]))
+    x = acc.extra
+    # coverage counters by EXPECTED outcome (independent of what the implementation did)
+    x["expected %s:%s" % (kind, expect[0])] += 1
+    for idx, sp in enumerate(specs):
+        if sp is None:
+            continue
+        if late:
+            if sp["site"] == "after":
+                x["spell late define, seed-%s: form=%s via=%s" % (base[0], sp["form"], sp["via"])] += 1
+        elif expect[0] == "tree":
+            site = sp["site"] if sp["via"] in SP.DEFINING_VIAS else "-"
+            x["spell tree: form=%s via=%s" % (sp["form"], sp["via"])] += 1
+            x["spell tree: place=%s form=%s" % (places[idx], sp["form"])] += 1
+            x["spell tree: site=%s via=%s" % (site, sp["via"])] += 1
+            x["spell tree: site=%s form=%s" % (site, sp["form"])] += 1
+            x["spell tree: namekind=%s form=%s" % (sp["namekind"], sp["form"])] += 1
+            x["spell tree: includer=%s form=%s" % ("main" if cuts[idx][2] is None else "fragment", sp["form"])] += 1
+    if got[0] == "internal":
+        acc.violation("internal-error", case, got[1], expect[0],
+                      tags={"kind": "internal-error", "exc": got[1]["class"], "where": got[1]["where"],
+                            "spelled": [spec_label(sp) for sp in specs]})
+    elif got != expect:
+        acc.violation("late-define-accepted" if late else "spelled-include-differs-from-inlined-text", case,
+                      [got[0], repr(got[1:])[:300],
+                       (LAST_REJECTION[0] or "").replace(scr.base, "<tmp>") if got[0] == "rejected" else ""],
+                      [expect[0], repr(expect[1:])[:300]],
+                      tags={"kind": kind, "spelled": [spec_label(sp) for sp in specs], "places": list(places),
+                            "seed": base[0]})
+
+
+def rot_spec(scr, multi, sites):
+    """The next spelling in rotation (quick and thorough alike: one per layout of the ordinary seeds)."""
+    L = SPELL_COMBOS_M if multi else SPELL_COMBOS
+    f, v, nk = L[scr.nsp % len(L)]
+    scr.nsp += 1
+    site = "here"
+    if v in SP.DEFINING_VIAS:
+        site = sites[scr.nsite % len(sites)]
+        scr.nsite += 1
+    return mkspec(f, v, nk, site)
+
+
+def rot_specs(scr, site_lists):
+    specs = [rot_spec(scr, True, sl) for sl in site_lists]
+    if specs[0]["namekind"] == "homonym":        # the same name for every fragment of the layout
+        for sp in specs[1:]:
+            sp["namekind"] = "homonym"
+    return specs
+
+
+def check_spell_seed(scr, sch, lines, acc, mid, tier):
+    """Full product of the spelling axis on one short text."""
+    text = "\n".join(lines) + "\n"
+    base = outcome_text(sch, text)
+    acc.ev()
+    if base[0] == "internal":
+        acc.extra["seed_internal_errors(C07's)"] += 1
+        return
+    acc.cls("spell-seed-" + base[0])
+    acc.states += 1
+    bal = [(i, j) for (i, j) in ranges(lines) if balanced(lines, i, j)]
+
+    def go(cuts, places, specs, kind):
+        run_spelled(scr, sch, lines, acc, mid, base, cuts, places, specs, kind)
+
+    if base[0] != "tree":
+        # a rejected text cannot tell a reference that was not found from one that was: one spelling
+        # per single-range layout, in rotation
+        for (i, j) in bal:
+            for pl in PLACES:
+                go([(i, j, None)], (pl,), [rot_spec(scr, False, ("here",))], "spell-single-rejected-seed")
+            scr.nsp += 2
+        return
+    for (i, j) in bal:
+        for pl in PLACES:
+            for f, v, nk in SPELL_COMBOS:
+                go([(i, j, None)], (pl,), [mkspec(f, v, nk)], "spell-single")
+            for f in LATE_FORMS:
+                for v in LATE_VIAS:
+                    go([(i, j, None)], (pl,), [mkspec(f, v, "plain", "after")], "spell-late-define")
+    full = tier != "quick"
+    pair_places = list(itertools.product(PLACES, repeat=2)) if full else \
+        [("same", "sub"), ("sub", "parent"), ("parent", "same"), ("sub", "sub")]
+    inner = [(f, v) for f in (SP.FORMS if full else PAIR_FORMS) for v in (SP.VIAS if full else PAIR_VIAS)
+             if SP.applicable(f, v) and (f, v) != ("rel", "lit")]
+    for a in range(len(bal)):
+        for b in range(len(bal)):
+            (i, j), (k, l) = bal[a], bal[b]
+            if j <= k:
+                cuts, kind, sites = [(i, j, None), (k, l, None)], "spell-pair-disjoint", ("here", "prev", "top")
+            elif i <= k and l <= j and (i, j) != (k, l):
+                cuts, kind, sites = [(i, j, None), (k, l, 0)], "spell-pair-nested", ("here", "top")
+            else:
+                continue
+            for pls in pair_places:
+                # the second / inner reference spelled, its definitions at every site
+                for f, v in inner:
+                    for site in (sites if v in SP.DEFINING_VIAS else ("here",)):
+                        go(cuts, pls, [None, mkspec(f, v, "plain", site)], kind)
+                # the first / outer reference spelled: the other one, written literally and relatively,
+                # is resolved in a resource that was itself reached through a substituted reference
+                for f, v in OUTER_SPELLED:
+                    go(cuts, pls, [mkspec(f, v), None], kind)
+                # the same file name for both fragments (same argument text, different resources
+                # whenever the directories differ)
+                for v in ("lit", "whole"):
+                    go(cuts, pls, [mkspec("rel", "lit", "homonym"), mkspec("rel", v, "homonym")], kind)
 
 
 def check_seed(scr, sch, lines, acc, mid, tier, cutsets=True):
@@ -366,22 +645,41 @@ def check_seed(scr, sch, lines, acc, mid, tier, cutsets=True):
     check_folds(scr, sch, lines, acc, mid, tier, base, bal, has_define)
     if not cutsets:
         return
+    def spelled(cuts, places, specs, kind):
+        run_spelled(scr, sch, lines, acc, mid, base, cuts, places, specs, kind)
+
     for (i, j) in bal:
         for pl in PLACES:
             run_case([(i, j, None)], (pl,), base, "single")
+            # spelling axis, one spelling per layout in rotation
+            spelled([(i, j, None)], (pl,), [rot_spec(scr, False, ("here",))], "spelled-single")
+        scr.nsp += 2     # keeps the rotation from running in step with the 3 placements
     for (i, j) in unbal:
         run_case([(i, j, None)], ("same",), ("rejected",), "unbalanced")
     pair_places = list(itertools.product(PLACES, repeat=2)) if tier != "quick" else \
         [("same", "sub"), ("sub", "parent"), ("parent", "same"), ("sub", "sub")]
+    def spelled_pair_places():
+        # quick: one of the placement pairs per pair of ranges, in rotation; thorough: all
+        if tier != "quick":
+            return pair_places
+        scr.npp += 1
+        return [pair_places[scr.npp % len(pair_places)]]
+
     for a in range(len(bal)):
         for b in range(len(bal)):
             (i, j), (k, l) = bal[a], bal[b]
             if j <= k:                                   # disjoint, a before b
                 for pls in pair_places:
                     run_case([(i, j, None), (k, l, None)], pls, base, "pair-disjoint")
+                for pls in spelled_pair_places():
+                    spelled([(i, j, None), (k, l, None)], pls,
+                            rot_specs(scr, (("here", "top"), ("here", "prev", "top"))), "spelled-pair-disjoint")
             elif i <= k and l <= j and (i, j) != (k, l):  # b nested in a
                 for pls in pair_places:
                     run_case([(i, j, None), (k, l, 0)], pls, base, "pair-nested")
+                for pls in spelled_pair_places():
+                    spelled([(i, j, None), (k, l, 0)], pls,
+                            rot_specs(scr, (("here", "top"), ("here", "top"))), "spelled-pair-nested")
     # an outer fragment (in another directory) that itself includes two fragments one after the other:
     # the second inner include must still resolve against the OUTER fragment, not against whatever was
     # parsed last
@@ -394,6 +692,12 @@ def check_seed(scr, sch, lines, acc, mid, tier, cutsets=True):
             if l <= m:
                 for pls in shapes:
                     run_case([(i, j, None), (k, l, 0), (m, n, 0)], pls, base, "outer-with-two-inner")
+                if tier == "quick":
+                    scr.npp += 1
+                for pls in (shapes if tier != "quick" else [shapes[scr.npp % len(shapes)]]):
+                    spelled([(i, j, None), (k, l, 0), (m, n, 0)], pls,
+                            rot_specs(scr, (("here", "top"), ("here", "top"), ("here", "prev", "top"))),
+                            "spelled-outer-with-two-inner")
     if tier != "quick" and len(lines) <= 6:
         for a, b, c in itertools.permutations(range(len(bal)), 3):
             (i, j), (k, l), (m, n) = bal[a], bal[b], bal[c]
@@ -546,7 +850,10 @@ def shard(member, acc):
             sch = H.load_schema(xml)
             mid = {"name": name, "schema": xml}
             for lines in seeds:
-                check_seed(scr, sch, lines, acc, mid, tier, cutsets=(kind != "repeat"))
+                if kind == "spell":
+                    check_spell_seed(scr, sch, lines, acc, mid, tier)
+                else:
+                    check_seed(scr, sch, lines, acc, mid, tier, cutsets=(kind != "repeat"))
     finally:
         scr.close()
     acc.traces = acc.transitions
@@ -554,7 +861,7 @@ def shard(member, acc):
 
 
 def run(tier):
-    mem = [("corpus",) + m + (tier,) for m in C.members(tier)]
+    mem = [("corpus",) + m + (tier,) for m in C.members_bounded(tier, 4)]
     ds = define_seeds()
     step = 40
     for i in range(0, len(ds), step):
@@ -562,6 +869,10 @@ def run(tier):
     rs = repeat_seeds(tier)
     for i in range(0, len(rs), step):
         mem.append(("repeat", "repeat-%d" % i, REPEAT_SCHEMA, rs[i:i + step], tier))
+    ss = spell_seeds(tier)
+    sstep = 3 if tier == "quick" else 1
+    for i in range(0, len(ss), sstep):
+        mem.append(("spell", "spell-%d" % i, REPEAT_SCHEMA, ss[i:i + sstep], tier))
     run = core.Run(
         "C06", tier, "model_checking",
         rule="seeds = accepted and rejected corpus texts (3..%d lines, capped per schema) and %d %%define texts "
@@ -580,8 +891,27 @@ def run(tier):
              "layout with a fault line appended to the shared fragment (%%include of the main file = cycle; a section "
              "end the fragment did not open) must be rejected, then the fault-free layout on the same paths must again "
              "equal the inlined text.  "
+             "SPELLING AXIS (how the reference is written; the argument is $-expanded, THEN resolved against the "
+             "includer's URL): form of the expanded reference %r (relative / ./relative / absolute path / file:/// / "
+             "file:/) x via %r (literal; blanks and tabs around it; the whole reference, its directory part, directory "
+             "part with the slash, file name, stem, directory and name, or the scheme from fresh %%define names written "
+             "$n or ${n}; directory part from the environment $(E)) x name kind (plain, a '$' in the file name written "
+             "'$$', one file name for all fragments of a layout) x site of the %%define lines (just before the "
+             "%%include; first lines of the main file; last lines of the previous sibling fragment; just after the "
+             "%%include = too late, must be rejected).  Oracle: loadConfigFile(StringIO(inlined text with the %%define "
+             "lines left in place)); every spelling is first checked with the reference models of $-substitution and "
+             "RFC 3986 resolution to denote the fragment's file.  (a) FULL PRODUCT on the accepted ones of %d spell "
+             "seeds (all layout-balanced texts of 1..%d lines over %r; the rejected ones: single-range layouts with one "
+             "spelling each, in turn): every balanced range x 3 placements x all %d (form, via, "
+             "name kind) + late defines (%r x %r); every disjoint / nested pair of ranges x %s placement pairs x "
+             "second / inner reference in %d (form, via) x every site, first / outer reference in %r with the other "
+             "one literal, and both under one file name.  (b) ROTATION on every other seed: every single-range "
+             "layout, every pair of ranges (%s) and every outer-with-two-inner triple (%s) is loaded once more "
+             "with spellings drawn in turn from the %d / %d combinations (several fragments: all of them spelled, "
+             "sites in turn).  "
              "states = seeds, transitions = loads of include layouts.  Non-trivial = a range inside a section, a "
-             "nested cut, a seed with %%define, or a folded layout (a resource read more than once in one load)."
+             "nested cut, a seed with %%define, a folded layout (a resource read more than once in one load), or a "
+             "reference not written as a literal relative path."
              % (7 if tier == "quick" else 9, len(ds), "4" if tier == "quick" else "9",
                 "" if tier == "quick" else ", triples for seeds <= 6 lines",
                 len(rs), 5 if tier == "quick" else 6, len(REPEAT_ALPHABET), list(REPEAT_ALPHABET),
@@ -592,11 +922,26 @@ def run(tier):
                 if tier == "quick" else "all 3 / 9 assignments for 1 / 2 files, 9 of 27 for 3 files (every directory "
                 "pair for leaf x each wrapper, rotating so that all 27 occur over consecutive structures)",
                 "on one directory assignment per structure, rotating; " +
-                ("one of the two faults per structure, alternating" if tier == "quick" else "both faults")),
+                ("one of the two faults per structure, alternating" if tier == "quick" else "both faults"),
+                list(SP.FORMS), list(SP.VIAS), len(ss), 3 if tier == "quick" else 4, list(SPELL_ALPHABET),
+                len(SPELL_COMBOS), list(LATE_FORMS), list(LATE_VIAS), "4" if tier == "quick" else "9",
+                len(PAIR_FORMS) * len(PAIR_VIAS) if tier == "quick" else
+                len([1 for f in SP.FORMS for v in SP.VIAS if SP.applicable(f, v)]) - 1,
+                [list(c) for c in OUTER_SPELLED],
+                "one placement pair each, in turn" if tier == "quick" else "all placement pairs",
+                "one shape each, in turn" if tier == "quick" else "all shapes",
+                len(SPELL_COMBOS), len(SPELL_COMBOS_M)),
         bounds={"members": len(mem), "max_cuts": 2 if tier == "quick" else 3, "max_cuts_folded": 4,
                 "repeat_seeds": len(rs), "repeat_seed_max_lines": 5 if tier == "quick" else 6,
-                "fold_faults": list(FAULTS), "fold_dirs": list(DIRS)},
-        assumptions=["include arguments are written as URL-quoted relative references",
+                "fold_faults": list(FAULTS), "fold_dirs": list(DIRS),
+                "spell_seeds": len(ss), "spell_seed_max_lines": 3 if tier == "quick" else 4,
+                "spell_forms": list(SP.FORMS), "spell_vias": list(SP.VIAS),
+                "spell_namekinds": list(NAMEKINDS) + ["homonym"], "spell_sites": list(SITES),
+                "spell_combinations": len(SPELL_COMBOS), "spell_combinations_multi": len(SPELL_COMBOS_M)},
+        assumptions=["include arguments are URL-quoted references (a space is written %20; '$' stays literal); "
+                     "absolute spellings contain the scratch directory under /dev/shm",
+                     "the %define names inc<i> / nam<i> and the environment names VZC06_INC<i> used by the "
+                     "spellings do not occur in any seed",
                      "folded cuts have exactly identical lines (indentation included)"])
     core.pmap(shard, mem, run.acc, shard_budget=3000.0)
     a = run.acc
@@ -615,6 +960,34 @@ def run(tier):
     run.require(x.get("seeds-with-a-repeated-run", 0) > 1000, "fold axis: few seeds with a repeated run")
     if tier != "quick":
         run.require(x.get("expected fold-two-classes/fresh:tree", 0) > 50, "fold axis: few two-class layouts")
+    # spelling axis: every cell of the stated products was reached with a layout the inlined text of which is accepted
+    for f in SP.FORMS:
+        for v in SP.VIAS:
+            if SP.applicable(f, v):
+                run.require(x.get("spell tree: form=%s via=%s" % (f, v), 0) > 200,
+                            "spelling axis: few accepted layouts with form=%s via=%s" % (f, v))
+        for pl in PLACES:
+            run.require(x.get("spell tree: place=%s form=%s" % (pl, f), 0) > 500,
+                        "spelling axis: few accepted layouts with place=%s form=%s" % (pl, f))
+        for nk in NAMEKINDS + ("homonym",):
+            run.require(x.get("spell tree: namekind=%s form=%s" % (nk, f), 0) > 100,
+                        "spelling axis: few accepted layouts with namekind=%s form=%s" % (nk, f))
+        for site in ("here", "top", "prev"):
+            run.require(x.get("spell tree: site=%s form=%s" % (site, f), 0) > 100,
+                        "spelling axis: few accepted layouts with site=%s form=%s" % (site, f))
+        run.require(x.get("spell tree: includer=fragment form=%s" % f, 0) > 500,
+                    "spelling axis: few accepted layouts with a %s reference inside a fragment" % f)
+    for v in SP.DEFINING_VIAS:
+        for site in ("here", "top", "prev"):
+            run.require(x.get("spell tree: site=%s via=%s" % (site, v), 0) > 20,
+                        "spelling axis: few accepted layouts with site=%s via=%s" % (site, v))
+    for f in LATE_FORMS:
+        for v in LATE_VIAS:
+            run.require(x.get("spell late define, seed-tree: form=%s via=%s" % (f, v), 0) > 50,
+                        "spelling axis: few late defines with form=%s via=%s" % (f, v))
+    for k in ("spell-single", "spell-pair-disjoint", "spell-pair-nested", "spelled-single", "spelled-pair-disjoint",
+              "spelled-pair-nested", "spelled-outer-with-two-inner"):
+        run.require(x.get("expected %s:tree" % k, 0) > 1000, "spelling axis: few accepted layouts of kind %s" % k)
     return run
 
 
@@ -661,9 +1034,20 @@ def replay(body):
             sch = H.load_schema(case["member"]["schema"])
             lines = case["text"].rstrip("\n").split("\n")
             cuts = [tuple(c) for c in case["cuts"]]
-            path = build(scr, lines, cuts, case["places"])
-            got = outcome_file(sch, path)
-            exp = outcome_text(sch, case["text"])
+            if case.get("specs"):
+                path, inl, env = build_spelled(scr, lines, cuts, case["places"], case["specs"])
+                got = outcome_file(sch, path, env)
+                exp = outcome_text(sch, "\n".join(inl) + "\n")
+                if body["kind"] == "late-define-accepted":
+                    exp = ("rejected",)
+                if env:
+                    print("environment:", env)
+                if got[0] == "rejected":
+                    print("rejection    :", (LAST_REJECTION[0] or "").replace(scr.base, "<tmp>"))
+            else:
+                path = build(scr, lines, cuts, case["places"])
+                got = outcome_file(sch, path)
+                exp = outcome_text(sch, case["text"])
             for dp, dn, fn in os.walk(scr.base):
                 for f in fn:
                     print("--- %s\n%s" % (os.path.relpath(os.path.join(dp, f), scr.base), open(os.path.join(dp, f)).read()), end="")
